@@ -155,7 +155,9 @@ Inductive op :=
 | OSaveRegionF (id : Z) (v : rv) (applied : bool)
 | ODeleteRegionF (id : Z) (applied : bool)
 | OTick                        (* RegionStorage's timed background flush fires (3 s after the last save) *)
-| OCrashInFlush (written : bool). (* the process stops inside a flush: the leveldb batch write is atomic — all or nothing *)
+| OCrashInFlush (written : bool) (* the process stops inside a flush: the leveldb batch write is atomic — all or nothing *)
+| OLoadOnceCorrupt (bad : Z).  (* LoadRegionsOnce while the stored value of region `bad` cannot be unmarshalled: the load
+                                  fails at that item, after having delivered every region below it *)
 
 Inductive obs :=
 | BUnit
@@ -163,7 +165,9 @@ Inductive obs :=
 | BRegions (st : status) (l : list (Z * rv))
 | BCache (st : status) (loaded : list (Z * rv)) (cache_sorted : list (Z * rv)) (storage_after : list (Z * rv))
 | BSkipped                                                    (* LoadRegionsOnce: already loaded *)
-| BErr.                                                       (* the call returned an error *)
+| BErr                                                        (* the call returned an error *)
+| BEarly.                                                     (* LoadRegionsOnce returned nil, without delivering anything, while
+                                                                 another caller's first load was still in progress *)
 
 Definition weight_of (m : amap Z) (id : Z) : Z := match lookup m id with Some w => w | None => default_weight end.
 
@@ -201,6 +205,17 @@ Definition delete_region (s : sstate) (id : Z) : sstate * obs :=
                (use_rs s) (loaded_once s) (budget s), BUnit)
       else (set_regions s false (del (base_r s) id), BUnit).
 
+Definition load_once (s : sstate) : sstate * obs :=
+      if use_rs s then
+        if loaded_once s then (s, BSkipped)
+        else let '(s', b) := collect_regions s in
+             match b with
+             | BRegions RDone _ =>
+                 (SS (stores s') (lweight s') (rweight s') (base_r s') (ldb s') (batch s') (cache_size s') (use_rs s') true (budget s'), b)
+             | _ => (s', b)
+             end
+      else collect_regions s.
+
 Definition run_op (s : sstate) (o : op) : sstate * obs :=
   match o with
   | OSaveStore id p =>
@@ -222,16 +237,7 @@ Definition run_op (s : sstate) (o : op) : sstate * obs :=
                (SS (stores s1) (lweight s1) (rweight s1) (base_r s1) (ldb s1) [] 0 (use_rs s1) false (budget s1), BUnit)
   | OBudget b => (SS (stores s) (lweight s) (rweight s) (base_r s) (ldb s) (batch s) (cache_size s) (use_rs s) (loaded_once s) b, BUnit)
   | OLoadRegions => collect_regions s
-  | OLoadOnce =>
-      if use_rs s then
-        if loaded_once s then (s, BSkipped)
-        else let '(s', b) := collect_regions s in
-             match b with
-             | BRegions RDone _ =>
-                 (SS (stores s') (lweight s') (rweight s') (base_r s') (ldb s') (batch s') (cache_size s') (use_rs s') true (budget s'), b)
-             | _ => (s', b)
-             end
-      else collect_regions s
+  | OLoadOnce => load_once s
   | OSaveStoreF id p applied =>
       (if applied then SS (put (stores s) id p) (lweight s) (rweight s) (base_r s) (ldb s) (batch s) (cache_size s) (use_rs s) (loaded_once s) (budget s) else s, BErr)
   | ODeleteStoreF id applied =>
@@ -253,6 +259,15 @@ Definition run_op (s : sstate) (o : op) : sstate * obs :=
   | OCrashInFlush written =>
       let s1 := if written then flush_batch s else s in
       (SS (stores s1) (lweight s1) (rweight s1) (base_r s1) (ldb s1) [] 0 (use_rs s1) false (budget s1), BUnit)
+  | OLoadOnceCorrupt bad =>
+      let m := regions_of s (use_rs s) in
+      match lookup m bad with
+      | None => load_once s
+      | Some _ =>
+          if use_rs s && loaded_once s then (s, BSkipped)
+          else (* the error is returned; regionLoaded is set only after a successful load, so it stays 0 *)
+               (s, BRegions RFailed (filter (fun p => fst p <? bad) m))
+      end
   | OLoadIntoCache =>
       let rs := use_rs s in
       let m := regions_of s rs in
@@ -281,7 +296,7 @@ Definition store_eqb (a b : Z * Z * Z * Z) : bool :=
   let '(a1, a2, a3, a4) := a in let '(b1, b2, b3, b4) := b in (a1 =? b1) && (a2 =? b2) && (a3 =? b3) && (a4 =? b4).
 Definition obs_eqb (a b : obs) : bool :=
   match a, b with
-  | BUnit, BUnit | BSkipped, BSkipped | BErr, BErr => true
+  | BUnit, BUnit | BSkipped, BSkipped | BErr, BErr | BEarly, BEarly => true
   | BStores s l, BStores s' l' => status_eqb s s' && list_eqb store_eqb l l'
   | BRegions s l, BRegions s' l' => status_eqb s s' && list_eqb item_eqb l l'
   | BCache s l c m, BCache s' l' c' m' =>
@@ -292,11 +307,11 @@ Definition obs_eqb (a b : obs) : bool :=
 Definition model_obs (ops : list op) : list obs := run run_op sinit ops.
 
 (* the printed diff keeps only positions and a short tag: observations can be 10^4 items long *)
-Inductive otag := TErr | TUnit | TStores (st : status) (n : nat) | TRegions (st : status) (n : nat)
+Inductive otag := TEarly | TErr | TUnit | TStores (st : status) (n : nat) | TRegions (st : status) (n : nat)
                 | TCache (st : status) (n c m : nat) | TSkipped.
 Definition tag (b : obs) : otag :=
   match b with
-  | BUnit => TUnit | BSkipped => TSkipped | BErr => TErr
+  | BUnit => TUnit | BSkipped => TSkipped | BErr => TErr | BEarly => TEarly
   | BStores s l => TStores s (length l) | BRegions s l => TRegions s (length l)
   | BCache s l c m => TCache s (length l) (length c) (length m)
   end.
@@ -432,7 +447,7 @@ Fixpoint mon (w : want) (ops : list op) (obs_l : list obs) : option string :=
       | OFlush, _ | OReopen, _ =>
           mon (W (w_stores w) (w_lw w) (w_rw w) (w_regions w) (w_known w) (w_rs w) (w_deleted w) [] (w_unsure w)) r br
       | OBudget _, _ => mon w r br
-      | OLoadRegions, BRegions st got | OLoadOnce, BRegions st got =>
+      | OLoadRegions, BRegions st got | OLoadOnce, BRegions st got | OLoadOnceCorrupt _, BRegions st got =>
           if negb (sorted_ids_b 0 got) then Some "C17:load:region-loaded-twice-or-out-of-order"
           else match st with
                | RDone =>
@@ -450,6 +465,8 @@ Fixpoint mon (w : want) (ops : list op) (obs_l : list obs) : option string :=
                | RFailed => mon w r br   (* a failed load promises nothing *)
                end
       | OLoadOnce, BSkipped => mon w r br
+      | OLoadOnce, BEarly => Some "C17:load-once:returned-before-first-load-finished"
+      | OLoadOnceCorrupt _, BSkipped => mon w r br
       | OSaveStoreF id _ _, BErr | ODeleteStoreF id _, BErr | OSaveWeightF id _ _ _ _, BErr =>
           mon (W (w_stores w) (w_lw w) (w_rw w) (w_regions w) (w_known w) (w_rs w) (w_deleted w) (w_pending w) ((true, id) :: w_unsure w)) r br
       | OSaveRegionF id _ _, BErr | ODeleteRegionF id _, BErr =>
